@@ -10,11 +10,13 @@ COST_VECTORS_QUICK = [
     [2, 1, 1, 3],        # wd != rd
     [1, 2, 7, 0],        # rd = 0  (Read [K,0] branch)
     [1, 1, 0, 0],        # free disk
+    [0.5, 1, 3, 3],      # fractional forward cost
+    [5, 1, 1, 1],        # disk cheaper than one forward step
 ]
 COST_VECTORS_THOROUGH = COST_VECTORS_QUICK + [
-    [2, 7, 3, 11], [1, 1, 3, 0], [4, 1, 1, 0], [1, 1, 30, 30], [5, 1, 1, 1],
-    [1, 5, 10, 10], [0.5, 1, 3, 3], [1, 1, 0.25, 0.125], [1, 1, 1, 1],
-    [1, 1, 5, 2],
+    [2, 7, 3, 11], [1, 1, 3, 0], [4, 1, 1, 0], [1, 1, 30, 30],
+    [1, 5, 10, 10], [1, 1, 0.25, 0.125], [1, 1, 1, 1],
+    [1, 1, 5, 2], [0.25, 4, 0.5, 0.5], [0.125, 1, 1, 0],
 ]
 # non-dyadic vectors: compared with a relative tolerance only
 COST_VECTORS_INEXACT = [[0.1, 0.3, 0.7, 0.2], [1, 1, 0.3, 0.1]]
@@ -286,6 +288,44 @@ def boundary_cfgs(th):
                 out.append({"cls": "TwoLevel", "n": n, "period": p, "bs": bs,
                             "storage": "RAM" if (n + p) % 2 else "DISK",
                             "traj": "maximum"})
+    # very large unit counts with few steps (clamping code)
+    for n in (1, 2, 5, 9):
+        out.append({"cls": "Multistage", "n": n, "ram": 10 ** 6,
+                    "disk": 10 ** 6, "traj": "maximum"})
+        out.append({"cls": "Multistage", "n": n, "ram": 0, "disk": 10 ** 9,
+                    "traj": "revolve"})
+        out.append({"cls": "Mixed", "n": n, "s": 10 ** 9, "storage": "RAM"})
+        out.append({"cls": "TwoLevel", "n": n, "period": 10 ** 6,
+                    "bs": 10 ** 6, "storage": "RAM", "traj": "revolve"})
+        out.append({"cls": "Revolve", "n": n, "ram": 60,
+                    "costs": [1, 1, 2, 2]})
+        out.append({"cls": "HRevolve", "n": n, "ram": 40, "disk": 40,
+                    "costs": [2, 1, 1, 3]})
+        out.append({"cls": "DiskRevolve", "n": n, "ram": 60,
+                    "costs": [5, 1, 1, 1]})
+        out.append({"cls": "PeriodicDiskRevolve", "n": n, "ram": 12,
+                    "costs": [5, 1, 1, 1]})
+    # many units, moderate n
+    for n, u in ((40, 20), (60, 33), (90, 25)):
+        out.append({"cls": "Multistage", "n": n, "ram": u // 2,
+                    "disk": u - u // 2, "traj": "maximum"})
+        out.append({"cls": "Mixed", "n": n, "s": u, "storage": "DISK"})
+        out.append({"cls": "Revolve", "n": n, "ram": u,
+                    "costs": [1, 1, 2, 2]})
+        out.append({"cls": "HRevolve", "n": n, "ram": 2, "disk": u,
+                    "costs": [3, 1, 1, 1]})
+        out.append({"cls": "TwoLevel", "n": n, "period": n + 5, "bs": u,
+                    "storage": "DISK", "traj": "maximum"})
+    # small / fractional forward cost regimes
+    for v in ([0.5, 1, 0, 0], [0.25, 4, 0.5, 0.5], [0.125, 1, 1, 0],
+              [0.5, 0.5, 0.25, 0.25]):
+        for n in (5, 9, 14, 23):
+            for ram in (1, 2, 3):
+                for c in ("Revolve", "DiskRevolve", "PeriodicDiskRevolve"):
+                    out.append({"cls": c, "n": n, "ram": ram,
+                                "costs": list(v)})
+                out.append({"cls": "HRevolve", "n": n, "ram": ram, "disk": 2,
+                            "costs": list(v)})
     for n in ((255, 256, 257, 258, 259, 260) + ((511, 512, 513, 1024, 1025)
                                                  if th else ())):
         out.append({"cls": "Multistage", "n": n, "ram": 2, "disk": 3,
@@ -350,7 +390,7 @@ def stream_cfgs(tier, seed, classes=None, scale=1.0):
         out += grid_multistage(16, 3, 3)
         out += grid_mixed(18, 4)
         out += grid_revolve3(14, 3, COST_VECTORS_QUICK[:4])
-        out += grid_hrevolve(13, 2, 3, COST_VECTORS_QUICK)
+        out += grid_hrevolve(13, 2, 3, COST_VECTORS_QUICK[:6])
         k = int(40 * scale)
         out += boundary_cfgs(False)
         out += rand_basic(rng, 12, 500)
